@@ -110,7 +110,9 @@ def check_case(ctx, case):
     gap = np.abs(d0[mask0][:, None] - o0[0][None, :]) if (mask0.any() and len(o0[0])) else np.ones((1, 1))
     tol_ = 1e-9 * max(1.0, d0.max())
     # ... provided it is a single pair: tied distances (lattices) split differently once rotation perturbs them
-    edges_near = bool(np.any((gap > 0) & (gap < tol_)) or np.any(np.sum(gap < tol_, axis=0) > 1))
+    # only the last edge is derived from a pair (the largest selected distance); an inner edge hit exactly is a coincidence
+    edges_near = bool(np.any((gap > 0) & (gap < tol_)) or np.any(np.sum(gap < tol_, axis=0) > 1) or
+                      (gap.shape[1] > 1 and np.any(gap[:, :-1] < tol_)))
     if near_tol or near_bw or edges_near or isinstance(case['bandwidth'], str) and False:
         ctx.count('rotation_skipped_boundary')
     else:
